@@ -145,10 +145,20 @@ def canonical(v, style, prefix):
         # python's max returns the first maximal element; Rust's max_by_key returns the last.
         # Corpora guarantee a unique maximum, checked here.
         lens = [len(s.encode("utf-8")) for s in v.serialize]
-        assert lens.count(max(lens)) == 1, "ambiguous longest serialize in corpus"
+        assert lens.count(max(lens)) == 1 and unambiguous_longest(v.serialize), "ambiguous longest serialize in corpus"
     else:
         name = convert_case(v.ident, style)
     return (prefix or "") + name
+
+
+def unambiguous_longest(lits):
+    """The property says 'longest' without a unit: corpora only use literal sets whose longest element is
+    the same, and unique, by UTF-8 bytes and by chars."""
+    if len(lits) < 2:
+        return True
+    b = [len(s.encode("utf-8")) for s in lits]
+    c = [len(s) for s in lits]
+    return b.count(max(b)) == 1 and c.count(max(c)) == 1 and b.index(max(b)) == c.index(max(c))
 
 
 def effective_ci(v, enum_ci):
